@@ -166,17 +166,29 @@ func line(m *gostatsd.Metric) string {
 	return b.String()
 }
 
+// datagramsOf turns the datapoints of one arrival into one batch of datagrams (what one socket read hands to the
+// parser): consecutive datapoints of the same sender and receive time share a datagram
+func datagramsOf(dps []*gostatsd.Metric) []*statsd.Datagram {
+	var out []*statsd.Datagram
+	for i := 0; i < len(dps); {
+		j := i
+		var lines []string
+		for j < len(dps) && dps[j].Source == dps[i].Source && dps[j].Timestamp == dps[i].Timestamp {
+			lines = append(lines, line(dps[j]))
+			j++
+		}
+		out = append(out, &statsd.Datagram{IP: dps[i].Source, Msg: []byte(strings.Join(lines, "\n")), Timestamp: dps[i].Timestamp, DoneFunc: func() {}})
+		i = j
+	}
+	return out
+}
+
 func (p *pipeline) arrive(dps []*gostatsd.Metric) bool {
 	if len(dps) == 0 {
 		return true
 	}
-	lines := make([]string, len(dps))
-	for i, m := range dps {
-		lines[i] = line(m)
-	}
-	dg := &statsd.Datagram{IP: dps[0].Source, Msg: []byte(strings.Join(lines, "\n")), Timestamp: dps[0].Timestamp, DoneFunc: func() {}}
 	select {
-	case p.in <- []*statsd.Datagram{dg}:
+	case p.in <- datagramsOf(dps):
 	case <-time.After(10 * time.Second):
 		return false
 	}
@@ -359,12 +371,7 @@ func runFree(n int, expireAll bool, parsers, qsize int, items [][]string) string
 		defer feed.Done()
 		for _, it := range items {
 			if len(it) > 0 && it[0] == "a" {
-				dps := mmc.ParseDps(it[1:])
-				lines := make([]string, len(dps))
-				for i, m := range dps {
-					lines[i] = line(m)
-				}
-				in <- []*statsd.Datagram{{IP: dps[0].Source, Msg: []byte(strings.Join(lines, "\n")), Timestamp: dps[0].Timestamp, DoneFunc: func() {}}}
+				in <- datagramsOf(mmc.ParseDps(it[1:]))
 			}
 		}
 	}()
@@ -579,11 +586,15 @@ func gen(args []string) {
 		for o := 0; o < nops; o++ {
 			if r.Chance(3, 5) {
 				ip := hx.Pick(r, ips)
+				mixed := r.Chance(1, 3) // one socket read with datagrams of several senders
 				ts += int64(r.Intn(3))
 				nd := r.Range(1, 6)
 				ds := []string{}
 				for q := 0; q < nd; q++ {
 					s := hx.Pick(r, pool)
+					if mixed {
+						ip = hx.Pick(r, ips)
+					}
 					m := &gostatsd.Metric{Name: s.name, Type: s.ty, Tags: s.tags.Copy(), Source: gostatsd.Source(ip), Timestamp: gostatsd.Nanotime(ts), Rate: 1}
 					m.TagsKey = gostatsd.FormatTagsKey(m.Source, m.Tags.Copy())
 					switch s.ty {
